@@ -283,11 +283,16 @@ class C14(core.Check):
                         'pos:zero-length@end': 2, 'pos:zero-length@start': 2, 'pos:zero-length@before-org-gap': 2,
                         'pos:zero-length@muted': 2, 'pos:zero-length@end-after-label': 2, 'outcome:success': 3,
                         'outcome:failure': 3, 'output-in-missing-directory': 3, 'long-run:directed': 20, 'odd-spacing:directed': 10, 'corpus-example': 2, 'window-options': 3,
-                        'planted:symbol-cycle': 3, 'no-image-asked-for': 3, 'page-local-target:page-0': 3, 'corruption:name-defined-in-an-uncompiled-branch-only': 3, 'corruption:label-of-another-file-of-the-include-chain': 3, 'corruption:text-behind-a-complete-operand': 3, 'corruption:garbled-preprocessor-keyword': 3, 'corruption:garbled-directive': 3, 'corruption:value-outside-a-bound-that-is-0': 3, 'value-on-a-bound-that-is-0': 3, 'symbol-cycle:use-before-it-closes': 3, 'symbol-cycle:first-from-cmdline': 3,
+                        'planted:symbol-cycle': 3, 'no-image-asked-for': 3, 'page-local-target:page-0': 3, 'corruption:name-defined-in-an-uncompiled-branch-only': 3, 'corruption:label-of-another-file-of-the-include-chain': 3, 'corruption:text-behind-a-complete-operand': 3, 'corruption:garbled-preprocessor-keyword': 3, 'corruption:garbled-directive': 3, 'corruption:disallowed-combination-of-one-or-three-operands': 3, 'allowed-combination-next-to-a-disallowed-one': 3, 'last-line-without-a-newline': 3, 'corruption:value-outside-a-bound-that-is-0': 3, 'value-on-a-bound-that-is-0': 3, 'symbol-cycle:use-before-it-closes': 3, 'symbol-cycle:first-from-cmdline': 3,
                         'symbol-cycle:first-from-config': 3}
 
     def make(self, isa_files, isa_name, main, src, fmt, planted, tags, missing_dir=False, extra_argv=()):
         files = dict(isa_files)
+        tags = set(tags)
+        if 'pos:last' in tags and len(src) % 2 == 0 and src.endswith('\n') and not src.endswith('\n\n'):
+            # a fault on the last line is a fault also when no newline follows that line
+            src = src[:-1]
+            tags.add('last-line-without-a-newline')
         files[main] = src
         out = 'nodir/sub/out.bin' if missing_dir else 'out.bin'
         if not missing_dir:
@@ -445,7 +450,19 @@ class C14(core.Check):
         isa_b['operand_sets']['c14_sgn3'] = {'operand_values': {'n3': {'type': 'numeric_bytecode', 'bytecode': {'size': 3, 'min': -4, 'max': 0}}}}
         isa_b['instructions']['bt3'] = {'bytecode': {'value': 0x15, 'size': 5}, 'operands': {'count': 1, 'operand_sets': {'list': ['c14_bit3']}}}
         isa_b['instructions']['sg3'] = {'bytecode': {'value': 0x16, 'size': 5}, 'operands': {'count': 1, 'operand_sets': {'list': ['c14_sgn3']}}}
+        # combinations named as disallowed for instructions of one and of three operands are disallowed like pairs
+        isa_b['instructions']['dp1'] = {'bytecode': {'value': 0x17, 'size': 6}, 'operands': {'count': 1, 'operand_sets': {'list': ['reg'], 'disallowed_pairs': [['rb']]}}}
+        isa_b['instructions']['dp3'] = {'bytecode': {'value': 0x18, 'size': 2}, 'operands': {'count': 3, 'operand_sets': {
+            'list': ['reg', 'reg', 'reg'], 'disallowed_pairs': [['ra', 'ra', 'ra'], ['rb', 'ra', 'rsp']]}}}
         fn_b, itext_b = isamod.render_isa(isa_b, 'json')
+        for k_, ins in enumerate(['dp1 b', 'dp1 B', 'dp3 a, a, a', 'dp3 b, a, sp', 'dp3 A,a,A']):
+            at = [0, len(lines) // 2, len(lines)][k_ % 3]
+            Lt = lines[:at] + [ins] + lines[at:]
+            yield self.make({fn_b: itext_b}, fn_b, 'p.asm', '\n'.join(Lt) + '\n', None, 'no-variant-accepts',
+                            {'corruption:disallowed-combination-of-one-or-three-operands', 'fmt:None', 'planted:no-variant-accepts', 'pos:' + ['first', 'middle', 'last'][k_ % 3]})
+        for k_, ins in enumerate(['dp1 a', 'dp1 sp', 'dp3 a, a, b', 'dp3 sp, a, b', 'dp3 b, a, a']):
+            yield self.make({fn_b: itext_b}, fn_b, 'p.asm', '\n'.join(lines + [ins]) + '\n', None, None,
+                            {'corruption:none', 'fmt:None', 'allowed-combination-next-to-a-disallowed-one', 'pos:last'})
         for k_, ins in enumerate(['bt3 -1', 'bt3 0-4', 'bt3 c14_two-3', 'bt3 8', 'bt3 -4', 'bt3 c14_two*4', 'sg3 1', 'sg3 c14_two', 'sg3 -5', 'sg3 3']):
             at = [0, len(lines) // 2, len(lines)][k_ % 3]
             Lt = ['c14_two = 2'] + lines[:at] + [ins] + lines[at:]
@@ -517,13 +534,16 @@ class C14(core.Check):
                 if out not in files:
                     vs.append(core.violated('success-reported-but-no-image', det, buckets=tags, nt=nt))
             elif '-n' in case['runs'][0]['argv']:
-                if out in files:
+                if out in files or out in (o.get('missing_inputs') or []):
                     vs.append(core.violated('image-altered-although-none-was-asked-for', det, buckets=tags, nt=nt))
             else:
                 if out not in files:
                     # the sentinel is still there unchanged: success was reported but nothing was written
                     vs.append(core.violated('success-reported-but-image-not-written', det, buckets=tags, nt=nt))
         else:
+            if out in (o.get('missing_inputs') or []):
+                # the image that was there before the run is gone
+                vs.append(core.violated('failure-reported-but-image-deleted', det, buckets=tags, nt=nt))
             if out in files:
                 fmt = next((t for t in tags if t.startswith('fmt:')), '')
                 vs.append(core.violated('failure-reported-but-image-' + ('created' if m['missing_dir'] else 'altered') + '/' + fmt,
